@@ -1,4 +1,5 @@
 import KV.PlanLemmas
+import KV.Signature
 /-! # C10 — injector signature follows the declaration
 
 Property statements only.  `KV.sigArgs` / `PlanOut.b.isErr` are what the correspondence check compares with
@@ -38,5 +39,41 @@ theorem C10_params_are_args {provs : List PSpec} {ret : Nat} {p : PlanOut} (_h :
     simp only [beq_self_eq_true, Bool.not_true, Bool.false_eq_true, if_false]
     exact herase _
   · rfl
+
+/-- **Parameters = the unsupplied types of needed providers, each exactly once.**  `Needed` / `Unsupplied` are
+    written directly from the statement (`KV/Signature.lean`): a provider is needed if it supplies the requested
+    type or a type required by a needed provider; a type is an unsupplied requirement if no provider supplies
+    it and a needed provider (or the request itself) requires it. -/
+theorem C10_params {provs0 : List PSpec} {ret : Nat} {p : PlanOut} {provs : List PSpec} {sup : SupMap}
+    (h : plan provs0 ret = .ok p) (hs : supplierMap provs0 = .ok (provs, sup)) :
+    (∀ t, t ∈ argTypes p ↔ Unsupplied provs sup ret t) ∧ (argTypes p).Nodup :=
+  params_exact h hs
+
+/-- **context.Context**: a parameter exactly when a needed provider is Async or it is itself an unsupplied
+    requirement; the first parameter whenever a needed provider is Async; no parameter occurs twice; every
+    other parameter is an unsupplied requirement and vice versa. -/
+theorem C10_context {provs0 : List PSpec} {ret : Nat} {p : PlanOut} {provs : List PSpec} {sup : SupMap}
+    (h : plan provs0 ret = .ok p) (hs : supplierMap provs0 = .ok (provs, sup)) :
+    (ctxTy ∈ sigArgs p ↔ (∃ q, Needed provs sup ret q ∧ (provs.getD q default).isAsync = true) ∨ Unsupplied provs sup ret ctxTy) ∧
+    ((∃ q, Needed provs sup ret q ∧ (provs.getD q default).isAsync = true) → (sigArgs p).head? = some ctxTy) ∧
+    (sigArgs p).Nodup ∧
+    (∀ t, t ≠ ctxTy → (t ∈ sigArgs p ↔ Unsupplied provs sup ret t)) :=
+  ctx_param h hs
+
+/-- **error result exactly when some needed provider can return an error.** -/
+theorem C10_error {provs0 : List PSpec} {ret : Nat} {p : PlanOut} {provs : List PSpec} {sup : SupMap}
+    (h : plan provs0 ret = .ok p) (hs : supplierMap provs0 = .ok (provs, sup)) :
+    p.b.isErr = true ↔ ∃ q, Needed provs sup ret q ∧ (provs.getD q default).isErr = true :=
+  error_result h hs
+
+/-- **Unneeded providers influence nothing**: replacing a provider that is not needed by any provider of the same
+    shape (Async, fallible, other requirements) leaves the error result, the presence of the context and the
+    parameter set unchanged. -/
+theorem C10_unneeded_irrelevant {provs0 : List PSpec} {ret : Nat} {p p' : PlanOut} {provs : List PSpec} {sup : SupMap}
+    (u : Nat) (x : PSpec) (hx : SameShape (provs0.getD u default) x)
+    (h : plan provs0 ret = .ok p) (hs : supplierMap provs0 = .ok (provs, sup))
+    (hu : ¬ Needed provs sup ret u) (h' : plan (provs0.set u x) ret = .ok p') :
+    p'.b.isErr = p.b.isErr ∧ hasAsyncNodes p'.g = hasAsyncNodes p.g ∧ (sigArgs p').Perm (sigArgs p) :=
+  unneeded_provider_irrelevant u x hx h hs hu h'
 
 end C10
